@@ -1,9 +1,9 @@
 CONSTANTS
   Sym = {65, 84, 71}
-  Starts = {<<65, 84, 71>>}
-  Stops = {<<84, 65, 71>>, <<84, 71, 65>>, <<84, 65, 65>>}
-  MaxLen = 8
-  MinLens = {0, 3, 4}
+  Starts <- StartsATG
+  Stops <- StopsStd
+  MaxLen = 9
+  MinLens = {0, 4}
 SPECIFICATION Spec
 INVARIANTS Window Pending Reported Final Sharp FramesLemma
 PROPERTY Progress
